@@ -4,6 +4,7 @@ package daemon
 
 import (
 	"context"
+	"k8s.io/apimachinery/pkg/util/sets"
 
 	"github.com/AliyunContainerService/terway/pkg/aliyun/client"
 	"github.com/AliyunContainerService/terway/pkg/eni"
@@ -33,9 +34,16 @@ type VerifService interface {
 	ReleaseIP(ctx context.Context, r *rpc.ReleaseIPRequest) (*rpc.ReleaseIPReply, error)
 	GetIPInfo(ctx context.Context, r *rpc.GetInfoRequest) (*rpc.GetInfoReply, error)
 	VerifGCPods(ctx context.Context) error
+	VerifCleanRuntimeNode(ctx context.Context, localUIDs []string) error
 }
 
 func (n *networkService) VerifGCPods(ctx context.Context) error { return n.gcPods(ctx) }
+
+// VerifCleanRuntimeNode runs the NodeRuntime clean-up that ends every GC pass, with the given pod UIDs as
+// "still recorded locally".
+func (n *networkService) VerifCleanRuntimeNode(ctx context.Context, localUIDs []string) error {
+	return n.cleanRuntimeNode(ctx, sets.New[string](localUIDs...))
+}
 
 // VerifNewNetworkService assembles a networkService from injected parts (what the builder does
 // around its cloud / kube clients).
